@@ -96,7 +96,8 @@ MigIssues ==
         legacyProp == bi.props[CHOOSE x \in 1..Len(bi.props) : bi.props[x][1] = Ev.legacy]
         tn  == CanonicalName(cls, Ev.target)
         expected == IF Ev.explicit = 1
-                    THEN bi.props[CHOOSE x \in 1..Len(bi.props) : bi.props[x][1] = Ev.target][2]
+                    THEN bi.props[CHOOSE x \in 1..Len(bi.props) :
+                                    bi.props[x][1] = (IF "explicit_name" \in DOMAIN Ev THEN Ev.explicit_name ELSE Ev.target)][2]
                     ELSE MigValue(Ev.migop, legacyProp[2])
         okPaths == {p \in Paths : TripOK(Ev.paths[p])}
         inst(p) == Ev.paths[p].after.inst[F]
